@@ -297,6 +297,15 @@ def generate_mxlpy_code_from_symbolic_repr(
         sympy_to_python_fn(fn_name=name, args=args, expr=expr)
         for name, (expr, args) in functions.items()
     )
+    # The printed function bodies refer to these modules by their full name
+    imports = [
+        *imports,
+        *(
+            f"import {module}"
+            for module in ("math", "scipy")
+            if f"{module}." in functions_source and f"import {module}" not in imports
+        ),
+    ]
     source = [
         *imports,
         "from mxlpy import Model, Derived, InitialAssignment\n",
